@@ -21,7 +21,7 @@ def _funcs():
     return [i.loads, i._iso8583_to_dict, i._iso8583_to_field, i._string_to_pytype, i._get_field_length, i._pds_to_dict, i._icc_to_dict]
 
 
-def framing(pick, enc, hexbm, nmax, sub=True, bit1=True, cfgs=None, builder=None):
+def framing(pick, enc, hexbm, nmax, sub=True, bit1=True, cfgs=None, builder=None, prior=False):
     cfgs_given = cfgs
 
     def h():
@@ -30,6 +30,13 @@ def framing(pick, enc, hexbm, nmax, sub=True, bit1=True, cfgs=None, builder=None
         bits = list(pick())
         rope.ASCII_ELEMENTWISE[0] = (enc == 'ascii')
         custom = cfgs_given
+        if prior:
+            # the configuration object has a history: it was used for a decode in an earlier state and then edited in place
+            import copy
+            custom = copy.deepcopy(PRIOR_BEFORE)
+            iso.loads(b'1240' + bitmap_bytes([2, 3]) + b'0512345' + b'04abcd', iso_config=custom)
+            iso.loads(b'1240' + bitmap_bytes([3, 14]) + b'02xy' + b'2512', iso_config=custom)
+            prior_edit(custom)
         cfgs = custom or bit_config()
         if builder is not None:
             msg, data = builder(bits, enc, hexbm)
@@ -37,7 +44,7 @@ def framing(pick, enc, hexbm, nmax, sub=True, bit1=True, cfgs=None, builder=None
             msg, data, src = abstract_message(bits, enc, hexbm, nmax, bit1=bit1)
 
         def rp():
-            return {'kind': 'loads', 'args': {'data': witness_bytes(msg), 'enc': enc, 'hexbm': hexbm, 'cfg': custom}}
+            return {'kind': 'loads', 'args': {'data': witness_bytes(msg), 'enc': enc, 'hexbm': hexbm, 'cfg': custom, 'prior': prior}}
         core.set_fallback(rp, 'C08/concretised')
         d = None
         err = None
@@ -80,6 +87,9 @@ def framing(pick, enc, hexbm, nmax, sub=True, bit1=True, cfgs=None, builder=None
                 require(s_not(all_numerals_plain()), 'decoder refused a well-framed message: %s' % (err.args[:1],), key='C08/too-strict', replay=rp)
         return {'sample': {'bits': bits, 'len': ev(rlen(data)), 'accepted': d is not None, 'strict': rej or 'accept'}, 'replay': rp()}
     return h
+
+
+from .c08_replay import PRIOR_BEFORE, prior_edit      # (kept with the plain-Python replay so that it does not import the engine)
 
 
 MB_TEXTS = ['\u00e9', 'a\u00e91', '\u20acuro', '\u65e5\u672c\u8a9e', 'x\U0001f600y', 'caf\u00e9 12 \u00f1', 'plain']
@@ -151,6 +161,9 @@ def obligations(tier):
     upairs = [[3, 7], [7, 14], [2, 3], [2, 100], [4, 38], [3, 7, 14]]
     obs.append(Ob('multibyte/utf-8', framing(lambda: choose('bits', [[63], [72], [100], [43]]), 'utf-8', False, 40, sub=False, builder=multibyte), 600,
                   'multi-byte codec: variable elements with concrete non-ASCII content from a family, every declared length 0..bytes+2 (lengths count bytes)', _funcs))
+    obs.append(Ob('edited-config/latin_1', framing(lambda: choose('bits', [[2, 3], [3, 14], [2, 14, 41], [3, 41]]), 'latin_1', False, 22, sub=False, prior=True), 600,
+                  'a configuration object that was used for two decodes, then edited in place (entry replaced / changed / deleted / added) and used again: '
+                  'the reading follows the configuration as it is at the time of the call', _funcs))
     obs.append(Ob('unordered-config/latin_1', framing(lambda: choose('bits', upairs), 'latin_1', False, 22, sub=False, cfgs=UNORDERED), 600,
                   'caller-supplied configuration whose keys are not in numeric order: element groups %s, data 0..22' % upairs, _funcs))
     obs.append(Ob('bit1-clear-single/latin_1', framing(lambda: choose('bits', [[9], [33], [41], [49], [73], [24], [2]]), 'latin_1', False, 14, sub=False, bit1=False), 600,
